@@ -1549,7 +1549,10 @@ class WassersteinDistanceNewton(VariationalWassersteinDistance):
         )
 
         # Initialize distance in case below iteration fails
-        new_distance = 0
+        new_distance = self.l1_dissipation(solution_i[self.flux_slice])
+
+        # Only report convergence if the stopping criteria are met
+        converged = False
 
         # Initialize container for storing the convergence history
         convergence_history = {
@@ -1685,6 +1688,7 @@ class WassersteinDistanceNewton(VariationalWassersteinDistance):
                             < tol_distance
                         )
                     ):
+                        converged = True
                         break
             except Exception:
                 warnings.warn("Newton iteration abruptly stopped due to some error.")
@@ -1696,7 +1700,7 @@ class WassersteinDistanceNewton(VariationalWassersteinDistance):
 
         # Define performance metric
         info = {
-            "converged": iter < num_iter - 1,
+            "converged": converged,
             "number_iterations": iter,
             "convergence_history": convergence_history,
             "timings": total_timings,
@@ -1866,6 +1870,12 @@ class WassersteinDistanceBregman(VariationalWassersteinDistance):
         old_aux_flux = self._shrink(flux, shrink_factor)
         old_force = flux - old_aux_flux
         old_distance = self.l1_dissipation(flux)
+
+        # Distance of the initial flux, in case the first iteration below fails
+        new_distance = old_distance
+
+        # Only report convergence if the stopping criteria are met
+        converged = False
 
         iter = 0
 
@@ -2047,6 +2057,7 @@ class WassersteinDistanceBregman(VariationalWassersteinDistance):
                             < tol_residual
                         )
                     ):
+                        converged = True
                         break
 
                 # Update Bregman variables
@@ -2056,6 +2067,8 @@ class WassersteinDistanceBregman(VariationalWassersteinDistance):
 
             except Exception:
                 warnings.warn("Bregman iteration abruptly stopped due to some error.")
+                # Report the distance of the flux which is returned
+                new_distance = self.l1_dissipation(flux)
                 break
 
         # Solve for the pressure by solving a single Newton iteration
@@ -2074,7 +2087,7 @@ class WassersteinDistanceBregman(VariationalWassersteinDistance):
 
         # Define performance metric
         info = {
-            "converged": iter < num_iter - 1,
+            "converged": converged,
             "number_iterations": iter,
             "convergence_history": convergence_history,
             "timings": total_timings,
